@@ -27,6 +27,7 @@ type Value struct {
 	Term   *Term
 	Len    *Term
 	Dom    *Term
+	Dom2   *Term // maps whose elements are maps: domain of the inner maps, (Array K1 (Array K2 Bool))
 	Fields map[string]Value
 	Ptr    *Loc
 	Fn     *Closure
@@ -311,6 +312,9 @@ func (x *Exec) readLoc(st *State, loc *Loc) Value {
 		if len(loc.Idx) == 0 {
 			m := t.Underlying().(*types.Map)
 			v.Dom = x.get(st, loc.Key+"#dom", ArrS(sortOf(m.Key()), BoolS))
+			if im, ok := m.Elem().Underlying().(*types.Map); ok {
+				v.Dom2 = x.get(st, loc.Key+"#dom2", ArrS(sortOf(m.Key()), ArrS(sortOf(im.Key()), BoolS)))
+			}
 		}
 	}
 	return v
@@ -501,6 +505,9 @@ func (x *Exec) writeLoc(st *State, loc *Loc, v Value) {
 				st.store[loc.Key+"#dom"] = v.Dom
 			} else {
 				x.havocKey(st, loc.Key+"#dom")
+			}
+			if v.Dom2 != nil {
+				st.store[loc.Key+"#dom2"] = v.Dom2
 			}
 		}
 	}
